@@ -155,6 +155,10 @@ def _walk(ctx, fn, cfg, path, env0=None):
         if node.kind in ("test", "for") and isinstance(node.ast, (ast.While, ast.For)):
             for v in loop_assigned(node.ast):
                 env[v] = Term.atom(v + "~")
+        if node.kind == "for" and isinstance(node.ast, ast.For):
+            for sub in ast.walk(node.ast.target):
+                if isinstance(sub, ast.Name):
+                    env[sub.id] = Term.atom(sub.id + "~")
         snap = dict(env)
         ev = Evaluator(env=env, const_of=const_of)
         st = node.ast
